@@ -417,5 +417,95 @@ theorem triStrokeGuard_outside_iff (t : Tri) (style : TriStyle) (hal : style.str
     exact ⟨g0, g1, g2, g3⟩
   · exact id
 
+/-! ### Center / Outside strokes: only the COLUMNS of the vertices matter -/
+
+/-- `TriStrokeGuard` with its vertex clause weakened to what the proof uses: the x coordinates of the
+three vertices lie in the columns of the stroke box (a vertex may lie above or below the box: the rows
+iterated are the rows of the box). -/
+def TriStrokeColumnsGuard (t : Tri) (style : TriStyle) : Prop :=
+  match closedSegments3 t.sortedClockwise style.strokeWidth style.strokeAlignment.toOffset with
+  | some [a, b, c] =>
+    let U := foldEdgeBoxes [a, b, c]
+    (-2147483648 : Int) ≤ U.tl.y ∧ adjOK U a b = true ∧ adjOK U b c = true ∧ adjOK U c a = true ∧
+      (style.fillColor.isSome = true →
+        (U.tl.x ≤ t.v1.x ∧ t.v1.x ≤ U.tl.x + U.size.w - 1) ∧ (U.tl.x ≤ t.v2.x ∧ t.v2.x ≤ U.tl.x + U.size.w - 1) ∧
+          (U.tl.x ≤ t.v3.x ∧ t.v3.x ≤ U.tl.x + U.size.w - 1))
+  | _ => True
+
+instance (t : Tri) (style : TriStyle) : Decidable (TriStrokeColumnsGuard t style) := by
+  unfold TriStrokeColumnsGuard; split <;> exact inferInstance
+
+/-- The columns guard is the weaker one. -/
+theorem triStrokeColumnsGuard_of_guard (t : Tri) (style : TriStyle) (h : TriStrokeGuard t style) :
+    TriStrokeColumnsGuard t style := by
+  unfold TriStrokeGuard at h
+  unfold TriStrokeColumnsGuard
+  generalize closedSegments3 t.sortedClockwise style.strokeWidth style.strokeAlignment.toOffset = o at h ⊢
+  rcases o with _ | (_ | ⟨a, _ | ⟨b, _ | ⟨c, _ | ⟨d, r⟩⟩⟩⟩)
+  · trivial
+  · trivial
+  · trivial
+  · trivial
+  · obtain ⟨g0, g1, g2, g3, gv⟩ := h
+    refine ⟨g0, g1, g2, g3, ?_⟩
+    intro hf
+    obtain ⟨v1, v2, v3⟩ := gv hf
+    rw [Rect.contains_iff] at v1 v2 v3
+    refine ⟨?_, ?_, ?_⟩ <;> omega
+  · trivial
+
+/-- `TriCtx` for a Center / Outside stroke of width > 1 under the columns guard. -/
+theorem triCtx_stroke_columns (t : Tri) (style : TriStyle) (hw : 2 ≤ style.strokeWidth)
+    (hal : style.strokeAlignment ≠ .inside) (hg : TriStrokeColumnsGuard t style) (bb : Rect)
+    (hbb : triStyledBoundingBox t style = some bb) :
+    -2147483648 ≤ bb.tl.y ∧
+    ∀ c, TriCtx t.sortedClockwise style.strokeWidth style.strokeAlignment.toOffset bb.tl.x
+      (bb.tl.x + bb.size.w - 1) (c && style.strokeAlignment.toOffset == .right) style.fillColor.isSome := by
+  rw [triStyledBoundingBox_eq] at hbb
+  have hcond : ¬ (style.strokeWidth < 2 ∨ style.strokeAlignment = .inside) := by
+    intro h; rcases h with h | h
+    · omega
+    · exact hal h
+  simp only [hcond, ↓reduceIte] at hbb
+  have hoff : (style.strokeAlignment.toOffset == StrokeOffset.right) = false := by
+    cases hs : style.strokeAlignment with
+    | inside => exact absurd hs hal
+    | center => rfl
+    | outside => rfl
+  unfold TriStrokeColumnsGuard at hg
+  unfold closedSegments3 at hbb hg
+  cases h0 : LineJoin.fromPoints t.sortedClockwise.v3 t.sortedClockwise.v1 t.sortedClockwise.v2
+      style.strokeWidth style.strokeAlignment.toOffset with
+  | none => rw [h0] at hbb; cases hbb
+  | some j0 =>
+    cases h1 : LineJoin.fromPoints t.sortedClockwise.v1 t.sortedClockwise.v2 t.sortedClockwise.v3
+        style.strokeWidth style.strokeAlignment.toOffset with
+    | none => rw [h0, h1] at hbb; cases hbb
+    | some j1 =>
+      cases h2 : LineJoin.fromPoints t.sortedClockwise.v2 t.sortedClockwise.v3 t.sortedClockwise.v1
+          style.strokeWidth style.strokeAlignment.toOffset with
+      | none => rw [h0, h1, h2] at hbb; cases hbb
+      | some j2 =>
+        rw [h0, h1, h2] at hbb hg
+        simp only [Option.bind_eq_bind, Option.bind_some, pure, Option.map_some, Option.some.injEq] at hbb hg
+        subst hbb
+        obtain ⟨hmin, g1, g2, g3, gv⟩ := hg
+        have hcov := closed3_outline_covered ⟨j0, j1⟩ ⟨j1, j2⟩ ⟨j2, j0⟩ rfl rfl rfl g1 g2 g3
+        refine ⟨hmin, ?_⟩
+        intro c
+        rw [hoff, Bool.and_false]
+        constructor
+        · intro _ _ idx a b ha hb
+          exact covered_segOK (hcov _ (edge_segment_mem t.sortedClockwise style.strokeWidth
+            style.strokeAlignment.toOffset _ (by unfold closedSegments3; rw [h0, h1, h2]; rfl) idx a b ha hb))
+        · intro h
+          rcases h with h | h
+          · cases h
+          · obtain ⟨v1, v2, v3⟩ := gv h
+            exact sortedClockwise_all (fun p =>
+              (foldEdgeBoxes [⟨j0, j1⟩, ⟨j1, j2⟩, ⟨j2, j0⟩]).tl.x ≤ p.x ∧
+              p.x ≤ (foldEdgeBoxes [⟨j0, j1⟩, ⟨j1, j2⟩, ⟨j2, j0⟩]).tl.x +
+                (foldEdgeBoxes [⟨j0, j1⟩, ⟨j1, j2⟩, ⟨j2, j0⟩]).size.w - 1) t v1 v2 v3
+
 end Joins
 end EG
